@@ -173,6 +173,23 @@ fn main() {
     sink.merge(struct_sweep(&run, &[&SCT], &cat::scts(thorough), d, &sfx, 64, &locality));
     sink.merge(struct_sweep(&run, &[&SCT_LIST], &cat::sct_lists(thorough), d, &sfx, 64, &locality));
 
+    // the same encodings under foreign outer headers (DER OCTET STRING / SEQUENCE, length prefixes, record /
+    // handshake / extension headers): a parser that recognises and strips one decides by what follows
+    {
+        let st = run.tier.pick(3, 1);
+        sink.merge(struct_sweep(&run, &[&PLAINTEXT, &ENCRYPTED, &RAW_RECORD, &RECORD_HEADER], &wrapped(&cat::tls_records(2, false), st * 2), 0, &sfx, 8, &locality));
+        sink.merge(struct_sweep(&run, &[&MSG_HANDSHAKE], &wrapped(&cat::handshake_messages(false), st), 0, &sfx, 8, &locality));
+        sink.merge(struct_sweep(&run, &ext_targets, &wrapped(&exts, st), 0, &sfx, 8, &locality));
+        sink.merge(struct_sweep(&run, &[&DTLS_HANDSHAKE], &wrapped(&cat::dtls_handshake_messages(), st), 0, &sfx, 8, &locality));
+        sink.merge(struct_sweep(&run, &[&DTLS_RECORD, &DTLS_RECORD_HEADER], &wrapped(&cat::dtls_records(), st), 0, &sfx, 8, &locality));
+        sink.merge(struct_sweep(&run, &[&DH_PARAMS], &wrapped(&cat::dh_params(false), st), 0, &sfx, 8, &locality));
+        sink.merge(struct_sweep(&run, &[&EC_PARAMETERS, &ECDH_PARAMS], &wrapped(&cat::ecdh_params(), 1), 0, &sfx, 8, &locality));
+        sink.merge(struct_sweep(&run, &[&EC_POINT], &wrapped(&cat::ec_points(), 7), 0, &sfx, 8, &locality));
+        sink.merge(struct_sweep(&run, &[&SIGNED, &SIGNED_OLD], &wrapped(&cat::signatures(true, false), 1), 0, &sfx, 8, &locality));
+        sink.merge(struct_sweep(&run, &[&SIGNED, &SIGNED_OLD], &wrapped(&cat::signatures(false, false), 1), 0, &sfx, 8, &locality));
+        sink.merge(struct_sweep(&run, &[&SCT], &wrapped(&cat::scts(false), 1), 0, &sfx, 8, &locality));
+        sink.merge(struct_sweep(&run, &[&SCT_LIST], &wrapped(&cat::sct_lists(false), 1), 0, &sfx, 8, &locality));
+    }
     // every short string over per-family positional alphabets (nested lengths that point past the structure)
     let n = run.tier.pick(7, 8);
     let rec_alpha = Alpha::new(&[&[0x14, 0x15, 0x16, 0x17, 0x18, 0xff], &[0x03], &[0x03], &[0x00, 0x41], &[0x00, 0x01, 0x02, 0x03, 0x04, 0x06]], &[0x00, 0x01, 0x02, 0x03, 0x0e, 0xff]);
